@@ -5,7 +5,7 @@
 (* (events computed by BiomModel), so the model is checked against exactly *)
 (* the clause set the implementation is judged by.                         *)
 (***************************************************************************)
-EXTENDS BiomProps4
+EXTENDS BiomProps5
 
 CallClauses(ev) ==
   CASE ev.call = "filter" ->
@@ -43,6 +43,8 @@ CallClauses(ev) ==
     [] ev.call = "from_adjacency" -> Clauses_from_adjacency(ev)
     [] ev.call = "parse_uc"     -> Clauses_parse_uc(ev)
     [] ev.call = "validate"     -> Clauses_validate(ev)
+    [] ev.call = "mapfile"      -> Clauses_mapfile(ev)
+    [] ev.call = "cli_add_metadata" -> Clauses_cli_add_metadata(ev)
     [] OTHER -> [TRACE_unknown_call |-> FALSE]
 
 \* clauses index tables by position; if some logged table is not even well-shaped they are
